@@ -285,6 +285,10 @@ const CANARY8: u8 = 0xC9;
 pub struct EncDriver {
     buf: Vec<u8>,
     pub exact_alloc: bool,
+    /// guard-page mode for histories with an odd `align` (see drive_dec.rs)
+    pub guard: bool,
+    g_src: Option<crate::guard::GuardRegion>,
+    g_dst: Option<crate::guard::GuardRegion>,
 }
 
 /// materialised source text with prefix tables
@@ -325,7 +329,7 @@ pub fn materialise(h: &EncHistory) -> Materialised {
 
 impl EncDriver {
     pub fn new() -> EncDriver {
-        EncDriver { buf: Vec::new(), exact_alloc: false }
+        EncDriver { buf: Vec::new(), exact_alloc: false, guard: crate::guard::enabled(), g_src: None, g_dst: None }
     }
 
     pub fn run(&mut self, h: &EncHistory) -> EncOutcome {
@@ -334,6 +338,13 @@ impl EncDriver {
     }
 
     pub fn run_with(&mut self, h: &EncHistory, enc: &mut Encoder) -> EncOutcome {
+        crate::guard::set_current(h as *const EncHistory as *const (), render_enc_history);
+        let out = self.run_with_inner(h, enc);
+        crate::guard::clear_current();
+        out
+    }
+
+    fn run_with_inner(&mut self, h: &EncHistory, enc: &mut Encoder) -> EncOutcome {
         let mut out = EncOutcome::default();
         out.encoder_encoding = Some(enc.encoding());
         let m = materialise(h);
@@ -389,7 +400,69 @@ impl EncDriver {
                 let mut vec_dst: Option<Vec<u8>> = None;
                 let result: Result<(ERes, usize, usize, bool), String>;
                 let mut real_cap = cap;
+                let use_guard = self.guard && (h.align & 1 == 1) && src_len <= 8192 && cap <= 16384;
+                // in guard mode the source chunk is copied against a guard page
+                let mut gs8: &str = "";
+                let mut gs16: &[u16] = &[];
+                if use_guard {
+                    let g = self.g_src.get_or_insert_with(|| crate::guard::GuardRegion::new(16));
+                    match h.src {
+                        Src::Utf8 => {
+                            let b = m.utf8[off..chunk_end].as_bytes();
+                            let s = if h.align & 2 == 0 { g.end_u8(b.len()) } else { g.start_u8(b.len()) };
+                            s.copy_from_slice(b);
+                            gs8 = unsafe { std::str::from_utf8_unchecked(std::slice::from_raw_parts(s.as_ptr(), s.len())) };
+                        }
+                        Src::Utf16 => {
+                            let b = &m.utf16[off..chunk_end];
+                            let s = if h.align & 2 == 0 { g.end_u16(b.len()) } else { g.start_u16(b.len()) };
+                            s.copy_from_slice(b);
+                            gs16 = unsafe { std::slice::from_raw_parts(s.as_ptr(), s.len()) };
+                        }
+                    }
+                }
                 match h.sink {
+                    ESink::Slice if use_guard => {
+                        let g = self.g_dst.get_or_insert_with(|| crate::guard::GuardRegion::new(16));
+                        let dst = g.end_u8(cap);
+                        for b in dst.iter_mut() {
+                            *b = h.fill;
+                        }
+                        result = catch(|| match h.src {
+                            Src::Utf8 => {
+                                if h.repl {
+                                    let (r, rd, wr, f) = enc.encode_from_utf8(gs8, dst, last);
+                                    (coder(r), rd, wr, f)
+                                } else {
+                                    let (r, rd, wr) = enc.encode_from_utf8_without_replacement(gs8, dst, last);
+                                    (encr(r), rd, wr, false)
+                                }
+                            }
+                            Src::Utf16 => {
+                                if h.repl {
+                                    let (r, rd, wr, f) = enc.encode_from_utf16(gs16, dst, last);
+                                    (coder(r), rd, wr, f)
+                                } else {
+                                    let (r, rd, wr) = enc.encode_from_utf16_without_replacement(gs16, dst, last);
+                                    (encr(r), rd, wr, false)
+                                }
+                            }
+                        });
+                        // copy out so that the common post-processing below applies
+                        let o = band + al;
+                        self.buf.clear();
+                        self.buf.resize(o, CANARY8);
+                        self.buf.extend_from_slice(dst);
+                        self.buf.resize(o + cap + band, CANARY8);
+                        // the guarded source must be unchanged
+                        let same = match h.src {
+                            Src::Utf8 => gs8.as_bytes() == m.utf8[off..chunk_end].as_bytes(),
+                            Src::Utf16 => gs16 == &m.utf16[off..chunk_end],
+                        };
+                        if !same {
+                            out.faults.push(EFault { kind: EFaultKind::Bounds, msg: "source buffer was modified".into(), call_index });
+                        }
+                    }
                     ESink::Slice => {
                         let o = band + al;
                         if self.exact_alloc {
@@ -549,6 +622,11 @@ impl EncDriver {
         }
         out
     }
+}
+
+fn render_enc_history(p: *const ()) -> String {
+    let h = unsafe { &*(p as *const EncHistory) };
+    h.to_json().to_string()
 }
 
 fn coder(r: CoderResult) -> ERes {
